@@ -46,6 +46,7 @@ UNITS = {
     'V-BLOOM': dict(engine='verus', overlay='v_bloom.py'),
     'V-TLFU': dict(engine='verus', overlay='v_tlfu.py', rlimit=60),
     'V-POW': dict(engine='verus', overlay='v_pow.py'),
+    'V-SLFU': dict(engine='verus', overlay='v_slfu.py'),
     'K-PR': dict(engine='kani', files=['harness_lib.rs'], module={'harness_lib.rs': 'verif_hooks::harness'},
                  n=dict(quick=2, thorough=2), bound='none (loop-free, payloads K=u8, V=u16 fully symbolic)',
                  functions=[dict(function='PutResult::{eq, clone, Copy}', file='src/lib.rs', line=0, props=['C12'])],
@@ -182,7 +183,7 @@ def _P(units, level, text, note, technique, quick=None, thorough_extra=(), **kw)
     d.update(kw)
     return d
 
-COST_ORDER = ['V-ROW', 'V-BLOOM', 'V-TLFU', 'V-POW', 'K-PR', 'K-SLFU', 'K-TLFU-CTOR', 'K-SKETCH', 'K-RAW', 'K-ITER', 'K-CB', 'K-LIFE', 'K-SEG', 'K-LEAK', 'K-2Q', 'K-WTLFU', 'K-ARC', 'K-LEAK-ARC']
+COST_ORDER = ['V-ROW', 'V-BLOOM', 'V-TLFU', 'V-POW', 'V-SLFU', 'K-PR', 'K-SLFU', 'K-TLFU-CTOR', 'K-SKETCH', 'K-RAW', 'K-ITER', 'K-CB', 'K-LIFE', 'K-SEG', 'K-LEAK', 'K-2Q', 'K-WTLFU', 'K-ARC', 'K-LEAK-ARC']
 
 ALL_CACHES = ['K-RAW', 'K-SEG', 'K-2Q', 'K-ARC', 'K-WTLFU']
 
@@ -191,7 +192,7 @@ PROPERTIES = {
     'C02': _P(ALL_CACHES + ['K-LIFE', 'K-ITER'], 'model_checking', KANI_LEVEL_TEXT + '. C02: lookups/put/remove postconditions over the whole key->value view, with symbolic values unrelated to keys; borrowed-key lookups with K=Box<u8>,Q=u8 and K=[u8;2],Q=[u8].', KANI_NOTE + '; String/&str keys not instantiated', T_KANI),
     'C03': _P(ALL_CACHES + ['K-LIFE', 'K-ITER', 'K-CB', 'K-LEAK'], 'model_checking', KANI_LEVEL_TEXT + '. C03: CBMC pointer-validity/bounds/double-free/dealloc checks on every path of every harness, plus the well-formedness audit (second sentence of C03, literally) after every operation, incl. clone, purge, resize, drop and node hand-over between lists.', KANI_NOTE + '; Stacked/Tree-Borrows aliasing rules and lifetimes of returned references are out of reach', T_KANI, thorough_extra=['K-LEAK-ARC']),
     'C04': _P(['K-LEAK', 'K-LIFE', 'K-2Q', 'K-ARC', 'K-SEG', 'K-WTLFU'], 'model_checking', KANI_LEVEL_TEXT + '. C04: RawLRU: drop-counting ghost state (every key/value object has an id and a drop counter) in harnesses that end by dropping the cache, run with the CBMC memory-leak check; composite caches: put harnesses with heap-owning values (V = Box<u8>: a value dropped twice, or while still held, is a double free / use after free for CBMC) and node hand-over contracts; thorough tier adds drop-everything harnesses with tracked payloads and the memory-leak check for SegmentedCache, 2Q and ARC.', KANI_NOTE + '; a node that a composite cache forgets to free is only seen by the thorough tier (leak-check harnesses)', T_KANI, thorough_extra=['K-LEAK-ARC']),
-    'C05': _P(ALL_CACHES + ['K-LIFE', 'K-SLFU', 'K-SKETCH', 'K-TLFU-CTOR', 'V-ROW', 'V-BLOOM', 'V-TLFU', 'V-POW'], 'model_checking', 'mixed: constructor/builder contracts over the FULL argument domain (all usize sizes, all f64 ratios incl. NaN) are complete Kani proofs; LFU arithmetic (overflow, shifts, indices) is proved unbounded by Verus on the extracted functions; panic-freedom of list operations is ' + KANI_LEVEL_TEXT, KANI_NOTE + '; CBMC float model for floor/mul; ln(x) in [-745,0) for 0<x<1 assumed (stub); fewer than 2^64 doorkeeper insertions; sizes <= 2^32', T_KANI + ' + ' + T_VERUS),
+    'C05': _P(ALL_CACHES + ['K-LIFE', 'K-SLFU', 'K-SKETCH', 'K-TLFU-CTOR', 'V-ROW', 'V-BLOOM', 'V-TLFU', 'V-POW', 'V-SLFU'], 'model_checking', 'mixed: constructor/builder contracts over the FULL argument domain (all usize sizes, all f64 ratios incl. NaN) are complete Kani proofs; LFU arithmetic (overflow, shifts, indices) is proved unbounded by Verus on the extracted functions; panic-freedom of list operations is ' + KANI_LEVEL_TEXT, KANI_NOTE + '; CBMC float model for floor/mul; ln(x) in [-745,0) for 0<x<1 assumed (stub); fewer than 2^64 doorkeeper insertions; sizes <= 2^32', T_KANI + ' + ' + T_VERUS),
     'C06': _P(['K-RAW', 'K-LIFE'], 'model_checking', KANI_LEVEL_TEXT + '. C06: the view equations of every RawLRU method (exact order of the whole list after each call).', KANI_NOTE, T_KANI),
     'C07': _P(['K-SEG'], 'model_checking', KANI_LEVEL_TEXT + '. C07: SLRU contract of put/get/get_mut/put_protected/remove_lru_from_*/peek_*_from_* by key location.', KANI_NOTE, T_KANI),
     'C08': _P(['K-2Q'], 'model_checking', KANI_LEVEL_TEXT + '. C08: 2Q contract of put (frequent/recent/ghost/new), get, remove; victim rule transcribed from the statement; constructor contract over all sizes and f64 ratios is a complete proof.', KANI_NOTE + '; CBMC float model for floor/mul', T_KANI),
@@ -204,7 +205,7 @@ PROPERTIES = {
     'C15': _P(['K-CB'], 'model_checking', KANI_LEVEL_TEXT + '. C15: ghost log of callback invocations; each operation contract states exactly how the log grows.', KANI_NOTE + '; with_on_evict_cb (RandomState) checked with RandomState::new stubbed', T_KANI),
     'C16': _P(['K-LIFE', 'K-SEG', 'K-WTLFU', 'K-TLFU-CTOR'], 'model_checking', KANI_LEVEL_TEXT + '. C16: clone contract (equal view, disjoint nodes, independence under mutation and drop) for RawLRU, SegmentedCache, WTinyLFUCache, TinyLFU.', KANI_NOTE, T_KANI),
     'C17': _P(['K-LIFE', 'K-CB', 'K-RAW', 'K-SEG', 'K-2Q', 'K-ARC', 'K-WTLFU'], 'model_checking', KANI_LEVEL_TEXT + '. C17: (i) every harness runs with a hasher whose use is a failure (the crate never hashes outside its index) and an index whose iteration order is nondeterministic; (ii) contracts are functions of the abstract view; (iii) two-run relational contract: same view, different addresses and index slot order, same results.', KANI_NOTE + '; independence from the particular BuildHasher inside std/hashbrown HashMap is an assumption on the dependency', T_KANI),
-    'C20': _P(['K-SLFU'], 'model_checking', KANI_LEVEL_TEXT + '. C20: invariant used == sum of recorded costs over an arbitrary table; contracts of increment*/update*/remove*/clear/update_max_cost/room_left/fill_sample.', 'trusted: as above; table <= N keys; |cost| < 2^40 (i64 overflow excluded by precondition)', T_KANI),
+    'C20': _P(['V-SLFU', 'K-SLFU'], 'model_checking', 'mixed, weakest link bounded: (a) deductive proof (Verus/Z3, unbounded in the number of tracked keys and in history length, exact i64 no-overflow preconditions) on the real bodies of increment_hashed_key, clear, room_left, increment, remove, update, hash_key against the vstd contract of std HashMap: invariant used == sum of recorded costs, whole-table postconditions, room_left(c) == max_cost - sum - c; (b) remove_hashed_key (closure capturing &mut), update_hashed_key (HashMap::get_mut), get_max_cost/update_max_cost (atomics) and fill_sample (for-loop over &HashMap: no vstd contract for IntoIterator of &HashMap) are contracted in Verus and discharged on the real bodies by ' + KANI_LEVEL_TEXT + '. C20 in K-SLFU: invariant used == sum of recorded costs over an arbitrary table; contracts of increment*/update*/remove*/clear/update_max_cost/room_left/fill_sample.', 'trusted: Verus/Z3 and the vstd specification of std::collections::HashMap<u64,i64,S> (conditional on builds_valid_hashers::<S>(), which is assumed of the hasher type); KeyHasher is a function of its argument; AtomicI64 value modelled by an uninterpreted atomic_val written only by update_max_cost; Kani leaf: table <= N keys; |cost| < 2^40 (i64 overflow excluded by precondition)', T_VERUS + ' (remove_hashed_key, update_hashed_key, fill_sample, max-cost accessors: ' + T_KANI + ')'),
 }
 
 NOT_APPLICABLE = {
